@@ -283,8 +283,9 @@ TrReorg ==
   /\ IsEv("Reorg") /\ ~torn.on
   /\ IF E.res = "ok"
      THEN IF ReorgAcceptable(E.n) THEN ReorgOk(E.n)
-          \* a reorg to the current height changes nothing whatever the window says
-          ELSE Chk("reorg-accepted", cur.n = 0 /\ E.n = Height) /\ UNCHANGED vars
+          \* outside the window: must be refused (a reorg to the current height of a database that has
+          \* nothing above it is harmless either way)
+          ELSE Chk("reorg-accepted", cur.n = 0 /\ E.n = ApiHeight /\ pool = (IF Height < 0 THEN pool ELSE snaps[Height + 1].pool)) /\ UNCHANGED vars
      ELSE /\ Chk("res", E.res = "err")
           /\ Chk("reorg-refused", ~ReorgAcceptable(E.n))      \* C01: accepted whenever inside the window
           /\ Reject
